@@ -43,7 +43,12 @@ def cases(ctx):
             out.append({"id": "%s|sign=%d|far-underflow" % (fty, neg), "fty": fty, "neg": neg, "kind": "Erange", "lo": 1, "hi": off - 127, "weight": 5})
             if off + 128 <= emax - 1:
                 out.append({"id": "%s|sign=%d|far-overflow" % (fty, neg), "fty": fty, "neg": neg, "kind": "Erange", "lo": off + 128, "hi": emax - 1, "weight": 5})
-            for E in exp_classes(ctx, fty):
+            cls = list(exp_classes(ctx, fty))
+            # interleave the classes (stride order) so that a run cut short by the check budget still samples the whole exponent range
+            stride = 37
+            order = sorted(range(len(cls)), key=lambda i: (i % stride, i))
+            for i in order:
+                E = cls[i]
                 out.append({"id": "%s|sign=%d|E=%d" % (fty, neg, E), "fty": fty, "neg": neg, "kind": "E", "E": E, "weight": 50 if E < off else 5})
     return out
 
@@ -195,6 +200,10 @@ def cosim(ctx, native):
         for _ in range(40):
             E = rng.choice([rng.randint(off - 126, off + 10), rng.randint(0, emax), off - 1, off, off - 60])
             samples.append((rng.randint(0, 1) << (width - 1)) | (E << fb) | rng.choice([0, 1, (1 << fb) - 1, rng.randint(0, (1 << fb) - 1), 1 << (fb - 1)]))
+        # one vector with a random fraction in every exponent class the symbolic cases distinguish (both signs alternating): a change
+        # that goes wrong throughout a class shows up here within seconds, whatever it does to the cost of the symbolic cases
+        for i, E in enumerate(exp_classes(ctx, fty)):
+            samples.append(((i & 1) << (width - 1)) | (E << fb) | rng.randint(0, (1 << fb) - 1))
         for bits in samples:
             ex = new_executor(ctx, prog, unwind=25)
             outs = ex.explore(start_state(f, [FV(bits, fty)]))
@@ -207,6 +216,8 @@ def cosim(ctx, native):
             else:
                 mine = ("ERR", prog.enums["DecimalError"][o.value.fields[0].variant])
             obs = parse_native(native["dev"].ask("5 from_%s %d" % (fty, bits)))
+            if obs[0] == "PANIC":
+                obs = ("PANIC",)
             if obs != mine:
                 raise RuntimeError("MIR interpreter %r vs native %r for %s bits %d" % (mine, obs, fty, bits))
             if obs != expected(fty, bits):
